@@ -106,10 +106,11 @@ pub fn check_case(c: &Case) -> (String, Vec<(&'static str, String, String)>) {
             }
         }
     });
+    // "with a read timeout applied (the caller's value when the port is configured directly)": the constructors'
+    // own default values are not part of the statement, only that some non-zero timeout is set
     let want_timeout = match c.ctor {
-        0 => Duration::from_secs(5),
-        1 => Duration::from_secs(10),
-        k => Duration::from_millis(CALLER_TIMEOUTS_MS[k - 2]),
+        0 | 1 => None,
+        k => Some(Duration::from_millis(CALLER_TIMEOUTS_MS[k - 2])),
     };
     let ctor_name = ["try_new", "odk", "configure_port", "configure_port", "configure_port", "configure_port"][c.ctor];
     let mut out = vec![];
@@ -143,8 +144,12 @@ pub fn check_case(c: &Case) -> (String, Vec<(&'static str, String, String)>) {
                     }
                     out.push(("line-settings", format!("{}:{}", ctor_name, wrong.join("+")), format!("port left at {:?} (prior {:?})", got, c.line)));
                 }
-                if *timeout.borrow() != want_timeout {
-                    out.push(("timeout-applied", format!("{}:value", ctor_name), format!("timeout is {:?}, expected {:?}", *timeout.borrow(), want_timeout)));
+                let applied = *timeout.borrow();
+                let timeout_set = events.iter().any(|e| matches!(e, Ev::SetTimeout(_, Ok(()))));
+                match want_timeout {
+                    Some(w) if applied != w => out.push(("timeout-applied", format!("{}:value", ctor_name), format!("timeout is {:?}, the caller asked for {:?}", applied, w))),
+                    None if timeout_set && applied.is_zero() => out.push(("timeout-applied", format!("{}:zero", ctor_name), format!("the constructor set a zero read timeout"))),
+                    _ => {}
                 }
                 let wpos = events.iter().position(|e| matches!(e, Ev::WriteSettings(_, Ok(()))));
                 let tpos = events.iter().position(|e| matches!(e, Ev::SetTimeout(_, Ok(()))));
